@@ -36,7 +36,7 @@ def r14a(ctx):
     loops = a.cfg.loops()
     cand = []
     for h, blks in loops.items():
-        eff = paths.collect_effects(a, blks, lambda k: k[-1] if len(k) == 2 and k[-1] == 'total_chunks' else None)
+        eff = paths.collect_effects(a, blks, lambda k: k[-1] if len(k) == 2 and k[-1] == 'total_chunks' else None, F=ctx.F)
         if eff:
             cand.append((len(blks), h, blks))
     if not ctx.check(len(cand) >= 1, 'R14a', fn, 'loop', '-', 'found the loop that updates total_chunks'):
@@ -58,25 +58,22 @@ def r14a(ctx):
                     cursor = paths.expr_place_key(x)
     if not ctx.check(cursor is not None, 'R14a', fn, 'cursor', a.loc(head), 'loop cursor identified from the exit comparison against chunks.len(): %s' % (cursor,)):
         return
-    owner = None
+    owners = set()
 
     def track(k):
+        if k is None:
+            return None
         if k == cursor:
             return 'cursor'
         if len(k) == 2 and k[1] in mfields:
+            owners.add(k[0])
             return k[1]
         return None
-    eff = paths.collect_effects(a, blks, track)
-    # all tracked metric updates must go to one metrics local
-    owners = set()
-    for b, es in eff.items():
-        for si, s in enumerate(a.blocks[b]['s']):
-            u = paths.additive_update(a, s)
-            if u and len(u[0]) == 2 and u[0][1] in mfields:
-                owners.add(u[0][0])
+    eff = paths.collect_effects(a, blks, track, F=ctx.F)
+    # all tracked metric updates (direct or through a helper method of the metrics type) go to one metrics local
     ctx.check(len(owners) == 1, 'R14a', fn, 'metrics', '-', 'all metric updates in the loop go to one DeduplicationMetrics value: %s' % sorted(owners))
     region = paths.Region(a, blks, head)
-    states, problems = region.propagate({b: [(c, s, t) for (c, s, t, _, _) in es] for b, es in eff.items()})
+    states, problems = region.propagate({b: [(c, s, t, e_) for (c, s, t, e_, _) in es] for b, es in eff.items()})
     for p in problems:
         ctx.fail('R14a', fn, 'inner-loop', '-', 'cannot establish: ' + p)
     ctx.floor('R14a', 'distinct per-iteration effect states of the accounting loop', len(states), 3)
